@@ -122,7 +122,10 @@ TraceNext == EvStart \/ EvPull \/ EvDeliver \/ EvRet \/ EvDispatch \/ EvDone \/ 
 
 TraceSpec == TraceInit /\ [][TraceNext]_tvars
 
-\* accepted iff some behaviour of ZngFault consumes every event
-Accepted == /\ PrintT(<<"HW", TLCGet(1), Len(Trace)>>)
-            /\ TLCGet(1) = Len(Trace)
+\* Accepted iff some behaviour of ZngFault consumes every event.  Validation searches depth-first
+\* (-Dtlc2.tool.queue.IStateQueue=StateDeque); the first behaviour that reaches the end of the trace
+\* prints ACCEPTED and stops TLC (TLCSet("exit", TRUE)).  If the search ends without that, the trace
+\* is rejected and the postcondition prints how far it got.
+StopWhenAccepted == (l > Len(Trace)) => (PrintT(<<"ACCEPTED", Len(Trace)>>) /\ TLCSet("exit", TRUE))
+Accepted == PrintT(<<"HW", TLCGet(1), Len(Trace)>>) /\ TLCGet(1) = Len(Trace)
 =============================================================================
